@@ -5,7 +5,7 @@ import kcommon as kc
 import gen_harness
 
 PID = "C15"
-MODEL_TARGETS = ["Proofs/Eval.vo", "Amount/F64.vo", "Amount/Dec.vo", "Gen/Catalogue.vo", "Gen/KernelsFmt.vo", "Proofs/C15f64.vo"]
+MODEL_TARGETS = ["Proofs/Eval.vo", "Amount/F64.vo", "Amount/Dec.vo", "Gen/Catalogue.vo", "Gen/KernelsFmt.vo", "Proofs/C15f64.vo", "Proofs/C15f64exp.vo"]
 PROOF_TARGETS = ["Props/C15.vo", "Pinned/C15.vo", "Props/C15amount.vo", "Pinned/C15amount.vo"]
 PROPS = ["Props/C15.v", "Props/C15amount.v"]
 COQCHK = ["QV.Props.C15", "QV.Props.C15amount"]
@@ -18,8 +18,8 @@ LEVEL = ("Coq theorems (Props/C15.v) about what the repository's code does with 
          "caller's precision only; unit-less values are the amount's own Display; without flags exactly [one minus] amount space symbol; sign/+/fill/alignment/0/width wrap the text as a whole (explicit shape incl. how many fill "
          "characters); a unit is its symbol under str rules; a rate is 'term / per' with a per-multiple of one omitted; the generated impls forward. The amount text (Props/C15amount.v): decimal - the digits printed are those of |amount| brought to the displayed precision, rounded to the nearest when digits are dropped "
          "(error at most half a unit of the last shown digit) and exact otherwise, the text parses back (from_str) to that value and, without precision and with its sign, to the stored amount itself; a quantity without flags is exactly "
-         "String::from(amount) + ' ' + symbol; binary64 - zeros with their sign, infinities and every finite double whose digits pass the read-back test (which the shortest-digit search applies to its own result before using it) parse back identically. "
-         "Correct rounding of binary64 under a precision and the character-width are judged on the implementation over a grid of format specs with exact rationals (testing). Partial: core::fmt and the amount printers are modelled, not verified.")
+         "String::from(amount) + ' ' + symbol; binary64 - EVERY double that is not a NaN parses back identically (zeros with their sign, infinities, subnormals; the shortest-digit search is used only after its result read back, and the complete-expansion fallback is proved to read back via Flocq's correctly rounded division), "
+         "and under a precision p the digits are those of m*2^e*10^p rounded half-to-even, laid out with exactly p fractional digits (C15_f64_precision_*). The character-width is judged on the implementation over a grid of format specs with exact rationals (testing). Partial: core::fmt and the amount printers are modelled, not verified.")
 LEVEL_NOTE = "Trusted: Coq kernel, translator rs2j+j2v, the hand model of core::fmt / fpdec Display (differentially tested on every run); no axioms in these theorems."
 ASSUMPTIONS = [
     "core::fmt behaves as Rt/Fmt.v (rustc 1.95 sources), fpdec's Display as Amount/DecModel.v",
@@ -102,7 +102,7 @@ def run(ctx):
         # the premise of the parse-back theorem (C15_f64_parse_back), evaluated in Coq for every finite double used here
         if be == "f64" and ctx.model_ok and not ctx.replay:
             used = sorted({m[2] for m in meta if m[0] == "fmt"})
-            fw.coq_make(["Proofs/C15f64.vo"], ctx.log)
+            fw.coq_make(["Proofs/C15f64.vo", "Proofs/C15f64exp.vo"], ctx.log)
             hdr = ("From Coq Require Import ZArith String List.\nFrom Flocq Require Import IEEE754.Binary IEEE754.Bits.\n"
                    "From QV Require Import Rt.Prelude Rt.Fmt Proofs.C15f64.\n"
                    "Definition dk (z : Z) : string := match b64_of_bits z with B754_finite _ _ _ m e _ => if digits_ok m e then \"ok\" else \"FAIL\" | _ => \"ok\" end.\n")
@@ -183,6 +183,8 @@ def judge_fmt(kr, be, op, m, s):
         if sym:
             if sym[-1] != fc:
                 core = core.rstrip(fc)
+            elif al in ("<", "^"):
+                return                   # the symbol ends with the fill character: right padding cannot be told from the symbol
         elif fc.isdigit() or fc == ".":
             return                       # digit fill after a bare number cannot be told from digits
         else:
